@@ -77,27 +77,34 @@ Proof.
   - exists (fmt_v (VBool b)). destruct b; repeat split; reflexivity.
   - exists (ztoa z). repeat split; [apply raw_ok_special_free, ztoa_sf | apply unescape_special_free, ztoa_sf].
   - exists (ztoa z). repeat split; [apply raw_ok_special_free, ztoa_sf | apply unescape_special_free, ztoa_sf].
-  - exists (ztoa z). repeat split; [apply raw_ok_special_free, ztoa_sf | apply unescape_special_free, ztoa_sf].
   - exists f. repeat split; [apply raw_ok_special_free, H | apply unescape_special_free, H].
   - exists x. repeat split; [apply raw_ok_special_free, H | apply unescape_special_free, H].
+Qed.
+
+(* an element / text scalar: an attribute scalar or a uint64 (written with %v as an element, refused as an attribute) *)
+Lemma elem_scalar_txt v : elem_scalar o v = true ->
+  is_scalar v = true /\ raw_okb (text_text o v) = true /\ unescape (text_text o v) = scalar_txt v.
+Proof.
+  destruct v; cbn [elem_scalar]; try (intro H; destruct (attr_scalar_txt _ H) as [raw [_ [Ht [Hr Hu]]]];
+    rewrite Ht; repeat split; assumption).
+  intros _. repeat split; [apply raw_ok_special_free, ztoa_sf | apply unescape_special_free, ztoa_sf].
 Qed.
 
 Lemma text_scalar_txt v : text_scalar o v = true ->
   is_scalar v = true /\ raw_okb (text_text o v) = true /\ unescape (text_text o v) = scalar_txt v.
 Proof.
-  destruct v; cbn [text_scalar]; try (intro H; destruct (attr_scalar_txt _ H) as [raw [_ [Ht [Hr Hu]]]];
-    rewrite Ht; repeat split; assumption).
+  destruct v; cbn [text_scalar]; try (apply elem_scalar_txt).
   intros _. repeat split; reflexivity.
 Qed.
 
-Lemma attr_scalar_unescape v : attr_scalar o v = true -> unescape (text_text o v) = scalar_txt v.
-Proof. intro H. destruct (attr_scalar_txt v H) as [raw [_ [Ht [_ Hu]]]]. rewrite Ht. exact Hu. Qed.
+Lemma attr_scalar_unescape v : elem_scalar o v = true -> unescape (text_text o v) = scalar_txt v.
+Proof. intro H. apply (elem_scalar_txt v H). Qed.
 
 (* ---------------- dom03 implies the well-formedness domain ---------------- *)
 Lemma dom03_wdom : forall v, dom03 o v = true -> wdom o v = true.
 Proof.
   induction v using value_ind2; cbn [dom03 wdom]; intro Hd; try reflexivity;
-    try (destruct (attr_scalar_txt _ Hd) as [raw [Ha [Ht [Hr _]]]]; cbn in Ha; inversion Ha; subst raw; exact Hr).
+    try (exact (proj1 (proj2 (elem_scalar_txt _ Hd)))).
   - rename m into vv. apply andb_true_iff in Hd. destruct Hd as [Hnd Hall].
     apply andb_true_iff. split; [exact Hnd|]. rewrite forallb_forall in *. intros [k v] Hin.
     specialize (Hall _ Hin). rewrite Forall_forall in H. specialize (H _ Hin). cbn [fst snd] in *.
